@@ -697,6 +697,40 @@ func runG4(p *an.Prog, r *an.Result) {
 			r.Bad(hn, "not found", token.NoPos, "neither the helper nor a loop over the "+lc.field+" of a block in the compile function: anchor not resolved")
 			continue
 		}
+		// the loop may live in a helper that is handed the list and the compile function
+		// (compileEach(items, c.compileNode)): follow the list into it
+		hasLoop := false
+		an.EachInstr(h, func(in ssa.Instruction) {
+			if ia, ok := in.(*ssa.IndexAddr); ok && isInput(ia.X) {
+				hasLoop = true
+			}
+		})
+		if !hasLoop {
+			an.EachInstr(h, func(in ssa.Instruction) {
+				c, ok := in.(*ssa.Call)
+				if !ok || hasLoop {
+					return
+				}
+				g := c.Call.StaticCallee()
+				if g != nil {
+					if o := g.Origin(); o != nil {
+						g = o // an instance of a generic helper
+					}
+				}
+				if g == nil || g.Blocks == nil || !p.InModule(g) {
+					return
+				}
+				for i, a := range c.Call.Args {
+					if isInput(a) && i < len(g.Params) {
+						gp := g.Params[i]
+						h = g
+						isInput = func(v ssa.Value) bool { return v == ssa.Value(gp) }
+						hasLoop = true
+						return
+					}
+				}
+			})
+		}
 		fwd, atEnd, perChild := false, false, false
 		var body, appendAt *ssa.BasicBlock
 		an.EachInstr(h, func(in ssa.Instruction) {
@@ -714,8 +748,10 @@ func runG4(p *an.Prog, r *an.Result) {
 						appendAt = x.Block()
 					}
 				}
-				// the child of this iteration is handed to a compile function of the module
-				if callee := x.Call.StaticCallee(); callee != nil && p.InModule(callee) {
+				// the child of this iteration is handed to a compile function of the module (or to the
+				// function the helper was given for that purpose)
+				_, viaParam := x.Call.Value.(*ssa.Parameter)
+				if callee := x.Call.StaticCallee(); callee != nil && p.InModule(callee) || viaParam {
 					for _, a := range x.Call.Args {
 						for _, o := range an.Origins(a, an.StepValue) {
 							if ld, ok := o.(*ssa.UnOp); ok {
